@@ -174,7 +174,78 @@ fn one_byteschar(out: &mut Out, h: &[u8], c: char) {
     out.line("c04.byteschar", &args, &imp, &fields(&oracle_all(h, &n)), &tag(h, &n));
 }
 
+/// long inputs: false starts whose overlap distance exceeds any word / mask size, short needles in
+/// long mixed ASCII / non-ASCII haystacks (both directions), long periodic needles
+fn stress(cfg: &Cfg, out: &mut Out) {
+    let rev = |s: &str| -> String { s.chars().rev().collect() };
+    // S1: needle = a b^k a c ; haystack = pre ++ a b^k ++ needle ++ z  (the first byte recurs k+1 later)
+    for k in 0..=72usize {
+        let needle = format!("a{}ac", "b".repeat(k));
+        for pre in ["", "x", "xxxxxxx", "xxxxxxxxxxxxxxxxxxxxxxxxxxxxxxx", "éééé"] {
+            let hay = format!("{}a{}{}z", pre, "b".repeat(k), needle);
+            one_str(out, &hay, &needle);
+            one_str(out, &rev(&hay), &rev(&needle));
+            if pre.len() <= 1 {
+                one_bytes(out, hay.as_bytes(), needle.as_bytes());
+            }
+        }
+    }
+    // S2: short needles inside long runs of ASCII / multi-byte filler
+    let sizes = block_sizes(if cfg.thorough { 300 } else { 100 });
+    for n in ["-", "é", "ab"] {
+        for (fa, fb) in [("x", "x"), ("é", "x"), ("x", "é"), ("é", "é")] {
+            for &la in &sizes {
+                for &lb in &sizes {
+                    if la + lb < 20 {
+                        continue;
+                    }
+                    let hay = format!("{}{}{}", fa.repeat(la), n, fb.repeat(lb));
+                    one_str(out, &hay, n);
+                }
+            }
+        }
+    }
+    for c in ['-', 'é', '锈'] {
+        for &la in &sizes {
+            for lb in [0usize, 1, 31, 32, 33, 64] {
+                let hay = format!("{}{}{}", "é".repeat(la), c, "x".repeat(lb));
+                one_strchar(out, &hay, c);
+                one_byteschar(out, hay.as_bytes(), c);
+            }
+        }
+    }
+    // S3: long periodic needles in haystacks spliced from their prefixes
+    let mut rng = Rng::new(cfg.seed ^ 0x0404);
+    let alpha = ['a', 'b', 'é', '-'];
+    for _ in 0..(if cfg.thorough { 12000 } else { 2500 }) {
+        let ul = 1 + rng.below(4) as usize;
+        let unit: String = (0..ul).map(|_| *rng.pick(&alpha)).collect();
+        let reps = 1 + rng.below(24) as usize;
+        let mut needle = unit.repeat(reps);
+        if rng.below(2) == 0 {
+            needle.push(*rng.pick(&alpha));
+        }
+        if rng.below(3) == 0 {
+            needle.insert(0, *rng.pick(&alpha));
+        }
+        let nchars: Vec<char> = needle.chars().collect();
+        let mut hay = String::new();
+        for _ in 0..(1 + rng.below(8)) {
+            match rng.below(4) {
+                0 => hay.push_str(&needle),
+                1 => hay.push(*rng.pick(&alpha)),
+                _ => {
+                    let k = rng.below(nchars.len() as u64 + 1) as usize;
+                    hay.extend(nchars[..k].iter());
+                }
+            }
+        }
+        one_str(out, &hay, &needle);
+    }
+}
+
 pub fn run(cfg: &Cfg, out: &mut Out) {
+    stress(cfg, out);
     // regression corpus first: the F1 witnesses
     for (h, n) in [("aaab", "aab"), ("abbb", "abb"), ("lawlawn", "lawn"), ("ababac", "abac"), ("éééa", "ééa")] {
         one_str(out, h, n);
